@@ -29,7 +29,7 @@ const (
 	fEnumList = "C06-panic-object-in-enum-list"
 )
 
-// anyObjectInEnumList applies objectInEnumList to every variable, including the list literal
+// anyObjectInEnumList applies ir.ObjectInEnumList to every variable, including the list literal
 // `[$v]` the gateway extracts around a variable used as a list item.
 func (c *Case) anyObjectInEnumList(vars *ir.Value) bool {
 	if vars == nil {
@@ -40,41 +40,8 @@ func (c *Case) anyObjectInEnumList(vars *ir.Value) bool {
 		if v != nil && strings.Contains(c.Query, "[$"+c.Decls[i].Name+"]") {
 			t, v = &ir.Type{Elem: t}, ir.List(v)
 		}
-		if objectInEnumList(&c.Schema, t, v, false, 0) {
+		if ir.ObjectInEnumList(&c.Schema, t, v, false, 0) {
 			return true
-		}
-	}
-	return false
-}
-
-// objectInEnumList: a list whose innermost type is an enum has (after list coercion) an
-// object element.
-func objectInEnumList(s *ir.Schema, t *ir.Type, v *ir.Value, inEnumList bool, depth int) bool {
-	if v == nil || v.K == ir.VNull || depth > 12 {
-		return false
-	}
-	if t.Elem != nil {
-		enumList := s.KindOf(t.Base()) == ir.KindEnum
-		if v.K != ir.VList {
-			return objectInEnumList(s, t.Elem, v, enumList, depth+1)
-		}
-		for _, x := range v.L {
-			if objectInEnumList(s, t.Elem, x, enumList, depth+1) {
-				return true
-			}
-		}
-		return false
-	}
-	switch s.KindOf(t.Name) {
-	case ir.KindEnum:
-		return inEnumList && v.K == ir.VObj
-	case ir.KindInput:
-		if v.K == ir.VObj {
-			for _, f := range s.Input(t.Name).Fields {
-				if objectInEnumList(s, f.T(), v.Get(f.Name), false, depth+1) {
-					return true
-				}
-			}
 		}
 	}
 	return false
@@ -90,48 +57,22 @@ func (c *Case) omittedListVarWithNullDefault(vars *ir.Value, name string) bool {
 	return false
 }
 
-// needsListCoercion: the literal has, at some level, a single non-null value where the type
-// is a list.
-func needsListCoercion(s *ir.Schema, t *ir.Type, lit *ir.Value, depth int) bool {
-	if lit == nil || lit.K == ir.VNull || lit.K == ir.VVar || depth > 12 {
-		return false
-	}
-	if t.Elem != nil {
-		if lit.K != ir.VList {
-			return true
-		}
-		for _, x := range lit.L {
-			if needsListCoercion(s, t.Elem, x, depth+1) {
-				return true
-			}
-		}
-		return false
-	}
-	if s.KindOf(t.Name) == ir.KindInput && lit.K == ir.VObj {
-		for _, f := range s.Input(t.Name).Fields {
-			if needsListCoercion(s, f.T(), lit.Get(f.Name), depth+1) {
-				return true
-			}
-		}
-	}
-	return false
-}
-
 // defaultNeedsListCoercion: a default that takes effect somewhere relies on list coercion:
 // an input field default of the schema, or the default of a variable the request omits.
 func (c *Case) defaultNeedsListCoercion(vars *ir.Value) bool {
-	for _, in := range c.Schema.Inputs {
-		for _, f := range in.Fields {
-			if f.HasDefault() {
-				if lit, err := ir.ParseLiteral(f.Default, ir.LexOpts{}); err == nil && needsListCoercion(&c.Schema, f.T(), lit, 0) {
-					return true
-				}
-			}
-		}
+	var roots []*ir.Type
+	for _, e := range c.Schema.Echoes {
+		roots = append(roots, e.Arg.T())
+	}
+	for _, d := range c.Decls {
+		roots = append(roots, d.T())
+	}
+	if ir.FieldDefaultNeedsListCoercion(&c.Schema, ir.ReachableInputs(&c.Schema, roots)) {
+		return true
 	}
 	for _, d := range c.Decls {
 		if d.Default != "" && vars.Get(d.Name) == nil {
-			if lit, err := ir.ParseLiteral(d.Default, ir.LexOpts{}); err == nil && needsListCoercion(&c.Schema, d.T(), lit, 0) {
+			if lit, err := ir.ParseLiteral(d.Default, ir.LexOpts{}); err == nil && ir.LiteralNeedsListCoercion(&c.Schema, d.T(), lit, 0) {
 				return true
 			}
 		}
@@ -194,88 +135,6 @@ func nullUnderDefaultedField(issues []ir.Issue) bool {
 	return len(issues) > 0
 }
 
-// scalarAtInputPosition: inside v (typed t) a position of input object type holds a number,
-// boolean or string. Default injection fails on such a position with an internal error,
-// which the list walker swallows while skipping the element.
-func scalarAtInputPosition(s *ir.Schema, t *ir.Type, v *ir.Value, depth int) bool {
-	if v == nil || v.K == ir.VNull || depth > 12 {
-		return false
-	}
-	if t.Elem != nil {
-		if v.K != ir.VList {
-			return scalarAtInputPosition(s, t.Elem, v, depth+1)
-		}
-		for _, x := range v.L {
-			if scalarAtInputPosition(s, t.Elem, x, depth+1) {
-				return true
-			}
-		}
-		return false
-	}
-	if s.KindOf(t.Name) != ir.KindInput {
-		return false
-	}
-	if v.K == ir.VNum || v.K == ir.VBool || v.K == ir.VStr {
-		return true
-	}
-	if v.K == ir.VObj {
-		for _, f := range s.Input(t.Name).Fields {
-			if scalarAtInputPosition(s, f.T(), v.Get(f.Name), depth+1) {
-				return true
-			}
-		}
-	}
-	return false
-}
-
-// shiftShape: somewhere in the value (including schema defaults that get injected) there is a
-// list whose innermost type is an input object and that has an element the default-injection
-// walker skips (a non-object, null in a list of lists, or an element on which injection fails)
-// before an element it rewrites.
-func shiftShape(s *ir.Schema, t *ir.Type, v *ir.Value, depth int) bool {
-	if v == nil || v.K == ir.VNull || depth > 12 {
-		return false
-	}
-	if t.Elem != nil {
-		if v.K != ir.VList {
-			return shiftShape(s, t.Elem, v, depth+1)
-		}
-		if s.KindOf(t.Base()) == ir.KindInput {
-			skipped := false
-			for _, x := range v.L {
-				match := x.K == ir.VObj
-				if t.Elem.Elem != nil {
-					match = x.K != ir.VNull
-				}
-				if match && skipped {
-					return true
-				}
-				if !match || scalarAtInputPosition(s, t.Elem, x, depth+1) {
-					skipped = true
-				}
-			}
-		}
-		for _, x := range v.L {
-			if shiftShape(s, t.Elem, x, depth+1) {
-				return true
-			}
-		}
-		return false
-	}
-	if s.KindOf(t.Name) == ir.KindInput && v.K == ir.VObj {
-		for _, f := range s.Input(t.Name).Fields {
-			fv := v.Get(f.Name)
-			if fv == nil && f.HasDefault() {
-				fv, _ = ir.ParseLiteral(f.Default, ir.LexOpts{})
-			}
-			if fv != nil && shiftShape(s, f.T(), fv, depth+1) {
-				return true
-			}
-		}
-	}
-	return false
-}
-
 func (c *Case) anyShiftShape(vars *ir.Value) bool {
 	for i := range c.Decls {
 		d := &c.Decls[i]
@@ -283,34 +142,8 @@ func (c *Case) anyShiftShape(vars *ir.Value) bool {
 		if v == nil && d.Default != "" {
 			v, _ = ir.ParseLiteral(d.Default, ir.LexOpts{})
 		}
-		if shiftShape(&c.Schema, d.T(), v, 0) {
+		if ir.ShiftShape(&c.Schema, d.T(), v, 0) {
 			return true
-		}
-	}
-	return false
-}
-
-// jsonNeedsListCoercion: the JSON value has a single non-null value where the type is a list.
-func jsonNeedsListCoercion(s *ir.Schema, t *ir.Type, v *ir.Value, depth int) bool {
-	if v == nil || v.K == ir.VNull || depth > 12 {
-		return false
-	}
-	if t.Elem != nil {
-		if v.K != ir.VList {
-			return true
-		}
-		for _, x := range v.L {
-			if jsonNeedsListCoercion(s, t.Elem, x, depth+1) {
-				return true
-			}
-		}
-		return false
-	}
-	if s.KindOf(t.Name) == ir.KindInput && v.K == ir.VObj {
-		for _, f := range s.Input(t.Name).Fields {
-			if jsonNeedsListCoercion(s, f.T(), v.Get(f.Name), depth+1) {
-				return true
-			}
 		}
 	}
 	return false
@@ -325,7 +158,7 @@ func (c *Case) rawComparable(vars *ir.Value) bool {
 		if v == nil && d.Default != "" {
 			return false
 		}
-		if jsonNeedsListCoercion(&c.Schema, d.T(), v, 0) {
+		if ir.JSONNeedsListCoercion(&c.Schema, d.T(), v, 0) {
 			return false
 		}
 	}
@@ -487,6 +320,7 @@ func checkCase(c Case, o *pbt.Rec) pbt.Verdict {
 	if nontrivial {
 		o.NonTrivial(c.Query + "\x00" + c.Vars)
 	}
+	secondOpinion(&c, want, o)
 	shift := varsObj != nil && c.anyShiftShape(varsObj)
 	if shift {
 		o.Label("shape:" + fShift)
@@ -544,9 +378,6 @@ func checkCase(c Case, o *pbt.Rec) pbt.Verdict {
 		return pbt.Bad("invalid variables admitted%s", describe())
 	case want && !got:
 		o.Label("disagree:valid-rejected")
-		if shift {
-			return pbt.BadKnown(fShift, "valid list of input objects corrupted before validation and then rejected%s", describe())
-		}
 		if res.Err != nil && strings.Contains(res.Err.Error(), "Int cannot represent non 32-bit signed integer value: "+intMin) && strings.Contains(c.Query, intMin) {
 			return pbt.BadKnown(fIntMin, "operation validation rejects the Int literal %s%s", intMin, describe())
 		}
@@ -558,6 +389,9 @@ func checkCase(c Case, o *pbt.Rec) pbt.Verdict {
 		}
 		if c.omittedDefaultedVarInsideLiteral(varsObj) {
 			return pbt.BadKnown(fVarDflt, "omitted variable with a default, used inside an argument literal, is extracted as null/absent instead of its default and the request is rejected%s", describe())
+		}
+		if shift {
+			return pbt.BadKnown(fShift, "valid list of input objects corrupted before validation and then rejected%s", describe())
 		}
 		return pbt.Bad("coercible variables rejected%s", describe())
 	}
